@@ -266,6 +266,23 @@ class Cache:
         ):
             return "nested window / aggregation functions in `mutate`"
 
+        if self.is_summarized and not self.group_by and isinstance(node, verbs.Mutate | verbs.Select):
+            # A `summarize` without grouping yields a single row only as long as the SELECT list
+            # contains an aggregate. If `node` removes the last column that depends on one
+            # (by overwriting or deselecting it), SQL would return one row per input row.
+            if isinstance(node, verbs.Select):
+                kept = [col._uuid for col in node.select]
+                new_vals = []
+            else:
+                kept = [uid for name, uid in self.name_to_uuid.items() if name not in node.names]
+                new_vals = node.values
+            if not any(self.cols[uid].ftype() == Ftype.AGGREGATE for uid in kept if uid in self.cols) and not any(
+                isinstance(col, Col) and ftype_here(col) == Ftype.AGGREGATE
+                for val in new_vals
+                for col in val.iter_subtree_postorder()
+            ):
+                return "no aggregated column left after `summarize` without grouping"
+
         if isinstance(node, verbs.Filter) and any(
             ftype_here(col, agg_is_window=True) == Ftype.WINDOW for col in node.iter_col_nodes() if isinstance(col, Col)
         ):
